@@ -115,6 +115,21 @@ def main():
         for k, m in metas().items():
             print(k, m.get("property"), "-", m.get("summary", "")[:100])
         return 0
+    if a[0] == "import":   # import <id> <property> <dir with patch.diff, demo, NOTES.md>
+        sid, prop, src = a[1], a[2], Path(a[3])
+        d = SEEDED / sid
+        d.mkdir(parents=True, exist_ok=True)
+        for f in src.iterdir():
+            if f.is_file() and f.suffix in (".diff", ".py", ".md"):
+                shutil.copy(f, d / f.name)
+        res = verify(sid)
+        meta = {"property": prop, "checks": [prop], "summary": "", "needs": "", "origin": "independent sub-agent given only the property text and a scratch worktree of /repo",
+                "verified": res, "ran": "tools/seeded.py verify: demo on clean worktree (must pass), demo on patched worktree (must fail), tools/baseline.py on patched worktree (641 stable tests must pass)"}
+        notes = (d / "NOTES.md").read_text() if (d / "NOTES.md").exists() else ""
+        meta["notes_head"] = notes[:1500]
+        (d / "meta.json").write_text(json.dumps(meta, indent=1))
+        print(sid, "verified" if res["ok"] else "NOT VERIFIED", json.dumps(res)[:600])
+        return 0 if res["ok"] else 1
     if a[0] == "verify":
         print(json.dumps(verify(a[1], suite="--no-suite" not in a), indent=1))
         return 0
